@@ -477,6 +477,91 @@ func runAcceptWrap(c *Ctx, r *Reporter) {
 			}
 		}
 	}
+	// the element type that combineTypes infers for a literal is applied to every element: the literal's parser converts
+	// its elements with wrapAny(e, combined) in a loop (or through a helper) that every return behind the combineTypes
+	// call has passed — not only when some condition on the types holds
+	comb := FindFunc(pkg, "combineTypes")
+	if comb == nil {
+		r.Undecided("combineTypes not found")
+		return
+	}
+	combSSA := p.SSAFunc(comb.Obj)
+	wrapsWith := func(fn *ssa.Function, typ ssa.Value) []*ssa.Call {
+		var out []*ssa.Call
+		for _, b := range fn.Blocks {
+			for _, ins := range b.Instrs {
+				if w, ok := ins.(*ssa.Call); ok && w.Call.StaticCallee() == wrapSSA && len(w.Call.Args) == 2 && w.Call.Args[1] == typ {
+					out = append(out, w)
+				}
+			}
+		}
+		return out
+	}
+	for _, fd := range Funcs(pkg) {
+		sf := p.SSAFunc(fd.Obj)
+		if sf == nil || sf == combSSA {
+			continue
+		}
+		n := 0
+		for _, ci := range callsTo(sf, combSSA) {
+			call, ok := ci.(*ssa.Call)
+			if !ok {
+				continue
+			}
+			n++
+			construct := fmt.Sprintf("%s#combineTypes[%d]:applied-to-every-element", fd.QName(), n)
+			// conversion sites: wrapAny(_, combined) here, or a helper that is handed the combined type and does it
+			var sites []ssa.Instruction
+			for _, w := range wrapsWith(sf, call) {
+				sites = append(sites, w)
+			}
+			for _, b := range sf.Blocks {
+				for _, ins := range b.Instrs {
+					h, ok := ins.(*ssa.Call)
+					if !ok || h.Call.StaticCallee() == nil || h.Call.StaticCallee() == wrapSSA || len(h.Call.StaticCallee().Blocks) == 0 {
+						continue
+					}
+					for i, a := range h.Call.Args {
+						if a == ssa.Value(call) && i < len(h.Call.StaticCallee().Params) && len(wrapsWith(h.Call.StaticCallee(), h.Call.StaticCallee().Params[i])) > 0 {
+							sites = append(sites, h)
+						}
+					}
+				}
+			}
+			if len(sites) == 0 {
+				r.Viol(construct, p.Rel(instrPos(call)), "the type inferred by combineTypes is never applied to the elements with wrapAny: an element narrower than the combined type reaches the evaluator unwrapped (`[[\"a\" 1] [2]]`)")
+				continue
+			}
+			var headers []*ssa.BasicBlock
+			for _, b := range sf.Blocks {
+				if naturalLoop(b) != nil {
+					headers = append(headers, b)
+				}
+			}
+			good := false
+			for _, site := range sites {
+				anchor := site.Block()
+				if h := innermostLoopOf(sf, anchor, headers); h != nil {
+					anchor = h
+				}
+				all := true
+				for _, ret := range returnsOf(sf) {
+					if returnsOnlyNil(ret) || !call.Block().Dominates(ret.Block()) {
+						continue
+					}
+					if !anchor.Dominates(ret.Block()) {
+						all = false
+					}
+				}
+				if all {
+					good = true
+				}
+			}
+			r.Check(good, construct, p.Rel(instrPos(call)), "the combined element type is applied to every element on every path to the literal's return",
+				"the conversion of the elements with wrapAny(e, combined) is skipped on some path behind combineTypes: the literal gets the combined type but an element that is narrower "+
+					"(the first element already had the widest type: `[[\"a\" 1] [2]]`, `a:any  x := [a 1]`) stays unwrapped, and the evaluator finds a bare value where the static type says any")
+		}
+	}
 }
 
 // sameValueExpr: structural equality of two SSA values (loads of the same field path, same calls on same receivers).
